@@ -535,7 +535,7 @@ func pureExpr(e ast.Expr) bool {
 }
 
 // MapRangeSites counts the rewritten range statements of the whole run (printed by main).
-var MapRangeSites int
+var MapRangeSites, MapRangeSkipped int
 
 func (r *rewriter) rewriteMapRanges() {
 	ast.Inspect(r.file, func(n ast.Node) bool {
@@ -544,7 +544,10 @@ func (r *rewriter) rewriteMapRanges() {
 			return true
 		}
 		if !pureExpr(rs.X) {
-			fatal(fmt.Errorf("unsupported construct: range over a map-valued call or literal (%s)", r.fset.Position(rs.Pos())))
+			// a map-valued call or literal: evaluating it twice could change behaviour, so the statement is left
+			// alone (the runtime's order stays; C17's repetition is what remains for it)
+			MapRangeSkipped++
+			return true
 		}
 		r.tmpCounter++
 		kv := ast.NewIdent(fmt.Sprintf("__vk%d", r.tmpCounter))
